@@ -9,9 +9,10 @@
   A document is what the XML parser hands to `parse` (element tree level): the XML -> object ->
   `to_dict` conversion is glue exercised by the correspondence run only.
 
-  The two places where the pinned code departs from the property are explicit switches of a
-  `Policy` record; `Policy.code` is the code as it is, `Policy.ideal` the behaviour the property
-  asks for.  Everything else is one and the same definition for both.
+  The one place where the code still departs from the property (F9: an unsigned document passes
+  although a certificate is configured) is an explicit switch of a `Policy` record; `Policy.code`
+  is the code as it is, `Policy.ideal` the behaviour the property asks for.  Everything else is
+  one and the same definition for both.
 -/
 namespace MdStore
 
@@ -92,16 +93,21 @@ structure Consts (α : Type) where
   ecName : α                   -- mdstore.ENTITY_CATEGORY
   trueStr : α                  -- "true"
 
-/-- The switches on which the pinned code and the property disagree. -/
+/-- Behaviour switches.  `unsignedPasses` is the one on which the pinned code and the property
+    disagree (F9).  `storeFirst` is the behaviour BEFORE fix 85b6178b (F11); the code no longer has
+    it (`Policy.code.storeFirst = false`), the switch is kept only so that the driver can tell the
+    classifier when observations are explained by exactly that old behaviour coming back. -/
 structure Policy where
   /-- certificate configured, document carries no signature: accepted
-      (`parse_and_check_signature`: `if not self.signed(): return True`). -/
+      (`_parse_and_check_signature`: `if not self.signed(): return True`). -/
   unsignedPasses : Bool
-  /-- MDQ: what `parse` stored stays in the source when the signature check then raises. -/
+  /-- MDQ, before 85b6178b: what `parse` stored stayed in the source when the signature check then
+      raised.  Since the fix `parse_and_check_signature` restores `self.entity` to the snapshot it
+      took on entry (i.e. AFTER `__getitem__` popped a stale entry). -/
   storeFirst : Bool
 deriving DecidableEq, Repr
 
-def Policy.code : Policy := ⟨true, true⟩
+def Policy.code : Policy := ⟨true, false⟩
 def Policy.ideal : Policy := ⟨false, false⟩
 
 variable {α : Type} [DecidableEq α]
